@@ -1153,6 +1153,19 @@ func (ev *Eval) equal(a, b EVal) (string, error) {
 	if len(at) != len(bt) {
 		return "", fmt.Errorf("operands differ in shape (%d vs %d leaves)", len(at), len(bt))
 	}
+	// operands of different kinds (a pointer against a slice, ...): an evaluation error of the clause -
+	// at a call site this means "the call no longer has the shape the assertion talks about" (a failed
+	// obligation), never an ill-sorted query
+	if a.T != nil && b.T != nil && !a.Untyped && !b.Untyped {
+		la, lb := ev.vc.L.Leaves(a.T), ev.vc.L.Leaves(b.T)
+		if len(la) == len(lb) {
+			for i := range la {
+				if sortSMT[la[i].Sort] != sortSMT[lb[i].Sort] {
+					return "", fmt.Errorf("operands of different kinds (%s vs %s)", a.T, b.T)
+				}
+			}
+		}
+	}
 	// interface values: Go's == (dynamic-value equality), exactly as the code's comparisons are
 	// translated, so that a contract clause `err == ErrX` matches the code's `err == ErrX`
 	if a.T != nil && b.T != nil && len(at) == 1 {
